@@ -534,6 +534,14 @@ var mutators = []mutator{
 	{"commit", []int64{0, 1, 2, 3, 4}, segOn, func(c *cand, a int64) {
 		c.commit = []string{"none", "mismatch", "badnonce", "force", "twononce"}[a]
 	}},
+	// witness data before segwit is active (nothing can commit to it) / the same output spent without witness
+	{"prewit", []int64{0, 1}, segOff, func(c *cand, a int64) {
+		s := c.sp(c.bs.cbOp(2, kP2WPKH))
+		if a == 1 {
+			s.bad = "nowit"
+		}
+		c.txs = append(c.txs, c.pay(1, 0, s))
+	}},
 	// legacy sigops: total cost exactly 80000 / 80004 through bare CHECKMULTISIG outputs
 	{"sigops", []int64{80000, 80001, 80004}, always, func(c *cand, a int64) { c.tuneSigops(a) }},
 	// block weight exactly 4000000 / 4000001 (segwit) or stripped size 1000000 / 1000001
